@@ -89,7 +89,6 @@ unsafe fn panic_at<const P: u8>() {
         assert!(sim::live_jits() == 0, "VERIF[C05,C12]: a trampoline is still mapped after unwinding out of the injector's scope");
         assert!(!lock_held(), "VERIF[C05,C04]: the process-wide guard is still held after unwinding out of the injector's scope");
         assert!(sim::all_clean(), "VERIF[C17]: restored bytes are not covered by a later flush");
-        kani::cover!(was_panicking && crate::interface::injector::__verif_lock_poisoned(), "COVER: the mutex is poisoned after the unwinding exit");
         // (c) afterwards a new injector / preventer can be created (full use: after_panic_usable)
         {
             let inj2 = InjectorPP::new();
@@ -125,6 +124,39 @@ panic_harness!(panic_at_p3, 3);
 panic_harness!(panic_at_p4, 4);
 panic_harness!(normal_exit_p5, 5);
 
+/// A call-count mismatch at NORMAL scope exit makes the injector panic.  That panic must come after
+/// the faked functions have been restored: whatever unwinds from it can no longer restore in the
+/// right order (the stub of panicking() is the observation point, see rt.rs).
+#[kani::proof]
+#[kani::unwind(26)]
+#[kani::stub(std::ptr::copy_nonoverlapping, shim_copy)]
+#[kani::stub(crate::injector_core::linuxapi::__clear_cache, shim_clear_cache)]
+#[kani::stub(<*mut u8>::add, shim_add)]
+#[kani::stub(std::thread::panicking, shim_panicking)]
+#[kani::stub(crate::injector_core::common::allocate_jit_memory, shim_allocate_jit_memory)]
+fn verification_panic_comes_after_restore() {
+    unsafe {
+        sim::reset();
+        sim::S.NE_ACT = 1;
+        sim::S.NJ_ACT = 2;
+        sim::S.PAGE = 4096;
+        sim::S.COOP_RANGE = crate::verif::VARIANT_RANGE;
+        sim::S.REQUIRE_LOCK = true;
+        let f0 = any_entry_addr();
+        sim::register_entry(0, f0, 16, kani::any());
+        sim::S.CELL[0] = 1; // times: 1, and no call is made
+        let t: u64 = kani::any();
+        kani::assume(t != 0 && t < (1u64 << 63) && t.abs_diff(f0) >= 24);
+        {
+            let mut inj = InjectorPP::new();
+            inj.when_called(FuncPtr::new(f0 as *const (), SIG)).will_execute_raw(FuncPtr::new(t as *const (), SIG));
+            inj.when_called(FuncPtr::new(f0 as *const (), SIG)).will_execute(build());
+            sim::S.VERIFY_EXPECTS_RESTORED = true;
+        }
+        assert!(false, "VERIF[C06]: a call count different from the expectation went unreported at scope exit");
+    }
+}
+
 /// after a lifetime that ended by unwinding (mutex poisoned), a new injector works normally
 #[kani::proof]
 #[kani::unwind(26)]
@@ -155,7 +187,8 @@ fn after_panic_usable() {
             drop(inj);
         }
         sim::S.PANICKING = false;
-        kani::cover!(crate::interface::injector::__verif_lock_poisoned(), "COVER: the mutex is poisoned after the unwinding exit");
+        // NOTE: Kani compiles std with panic=abort, where poisoning is compiled out: the Err arm of
+        // NoPoisonMutex::lock is not reachable here (covered by the native premise poison_recovery).
         assert!(!lock_held(), "VERIF[C05,C04]: the process-wide guard is still held after unwinding");
         {
             let mut inj2 = InjectorPP::new();
